@@ -9,7 +9,7 @@ use serde_json::{json, Value};
 
 pub const LEVEL: &str = "exploration";
 pub const EXHAUSTIVE: bool = false;
-pub const RULE: &str = "generated case = (options x layout, history H of 1..14 abstract ops over keys / typed words / backspaces / commits / finishes, terminating event in {commit of a valid index, finish, ctrl-backspace, plain backspaces until an empty suggestion is returned}, continuation K of 1..14 ops). Oracle (i) after every event: non-empty pre-edit text => ongoing session; after commit, finish and ctrl-backspace the flag is false; backspace when idle returns an empty suggestion and starts nothing; repeated plain backspaces reach an empty suggestion within 4*keys+2 presses and leave the flag false. Oracle (ii) differential: every event of K is applied to the used context and to a context created at that moment with the same configuration over a COPY of the user directory; renderings and session flags must be identical at every step. Non-trivial: H left a composition whose raw-key count differs from its code-point count, or a pending sign, or a learned commit, and K returned a list; distinct by concrete trace.";
+pub const RULE: &str = "generated case = (options x layout, history H of 1..14 abstract ops over keys / typed words / backspaces / commits / finishes, terminating event in {commit of a valid index, finish, ctrl-backspace, plain backspaces until an empty suggestion is returned}, continuation K of 1..14 ops). Oracle (i) after every event: non-empty pre-edit text => ongoing session; after commit, finish and ctrl-backspace the flag is false; backspace when idle returns an empty suggestion and starts nothing; repeated plain backspaces reach an empty suggestion within 4*keys+2 presses and leave the flag false. Oracle (ii) differential: every event of K is applied to the used context and to a context created at that moment with the same configuration over a COPY of the user directory; renderings and session flags must be identical at every step. Non-trivial: H left a composition whose raw-key count differs from its code-point count, or a pending sign, or a learned commit, and K returned a list; distinct by concrete trace. Plus a long-lived part: one context per shard (phonetic with suggestions, two fixed settings) lives through all cases of the shard (>= 400 words, learning commits included); each case types a word, ends it by one of the four terminating events, checks the flag, and types the next word both in it and in a context created at that moment over a copy of the user directory (every rendering and the flag compared).";
 pub const ASSUMPTIONS: &[&str] = &[
     "a context created over a copy of the user directory is 'a newly created context with the same configuration and learned selections'",
     "selection bytes are valid for the list shown before",
